@@ -26,6 +26,38 @@ def success_edges(bv, pred):
     return out
 
 
+def verifier_gate(R, rule, vs):
+    """Ok(()) of verify_response_with_signature is dominated by the success edges of the key lookup and of the
+    ECDSA verification under that key (shared by C01 and, as the premise of the state machine's typestate, C02)."""
+    oks2 = [bi for bi in sorted(vs.reach0) for s_ in vs.blocks[bi]["s"] if s_["k"] == "assign" and not s_["p"].get("p") and s_["p"]["l"] == 0 and s_["r"]["k"] == "agg" and s_["r"].get("vn") == "Ok"]
+    # other producers of the return value: anything but an explicit Err / `?` residual must be the verification itself
+    OKNESS_PRESERVING = ("std::result::Result::<T, E>::map_err", "std::result::Result::<T, E>::map")
+    direct = []
+    for a in lib.alts(vs.trace_local(0)):
+        if a[0] == "agg":
+            continue
+        x = a
+        while x[0] == "call" and x[1] in OKNESS_PRESERVING and x[2]:
+            x = x[2][0]
+            while x[0] in ("ref", "deref"):
+                x = x[1]
+        if x[0] == "call" and lib.norm(x[1]).endswith("FromResidual::from_residual"):
+            continue
+        if x[0] == "call" and lib.norm(x[1]).endswith("Verifier::verify"):
+            direct.append(x[3])
+            continue
+        R.violation(rule, "verifier:ok-producer", "the verifier's result is produced by `%s`, which can turn a failed verification into Ok" % (lib.norm(x[1]) if x[0] == "call" else fmt_t(x)[:80]))
+    oks2 = oks2 + direct
+    if R.floor(rule, "Ok returns in the verifier", len(oks2), 1):
+        for name, pred in (("key-registered", lambda h, si: "HashMap::" in h and h.endswith("::get")), ("ecdsa-verify", lambda h, si: h.endswith("Verifier::verify"))):
+            es = success_edges(vs, pred)
+            R.check(rule, "verifier:" + name, es and all(vs.dominated_by_edge(o, es) for o in oks2), "Ok(()) is dominated by `%s`" % name, "the verifier can return Ok without `%s`" % name)
+        # exactly one signature verification, under the key that was looked up with the request's key id
+        vcalls = [(bi, t) for bi, t in vs.calls() if (lib.norm(t.get("callee") or "")).endswith("Verifier::verify")]
+        inner = [b2 for b2 in vs.crate.bodies if b2.get("parent") == vs.id and any((lib.norm(t.get("callee") or "")).endswith("Verifier::verify") for _, t in BV.of(b2).calls())]
+        R.check(rule, "verifier:single-verification", len(vcalls) == 1 and not inner, "one Verifier::verify call, none in closures", "the verifier performs %d signature verifications (+%d in closures): a signature may be accepted under a key other than the one named by the request" % (len(vcalls), len(inner)))
+
+
 def run(F, R):
     c = F.client
     W = flow.World([c])
@@ -82,11 +114,7 @@ def run(F, R):
         gets = [t for _, t in vr.calls() if lib.callee_is(t, "http::HeaderMap::<T>::get")]
         keys = [terms.render(vr, vr.trace_op(t["args"][1]), W, {}) for t in gets]
         R.check("C01-R1", "header-name", keys == ["hyper::header::ETAG"] or keys == ["http::header::ETAG"], str(keys), "header looked up: %s" % keys)
-    oks2 = [bi for bi in sorted(vs.reach0) for s_ in vs.blocks[bi]["s"] if s_["k"] == "assign" and not s_["p"].get("p") and s_["p"]["l"] == 0 and s_["r"]["k"] == "agg" and s_["r"].get("vn") == "Ok"]
-    if R.floor("C01-R1", "Ok returns in the verifier", len(oks2), 1):
-        for name, pred in (("key-registered", lambda h, si: "HashMap::" in h and h.endswith("::get")), ("ecdsa-verify", lambda h, si: h.endswith("Verifier::verify"))):
-            es = success_edges(vs, pred)
-            R.check("C01-R1", "verifier:" + name, es and all(vs.dominated_by_edge(o, es) for o in oks2), "Ok(()) is dominated by `%s`" % name, "the verifier can return Ok without `%s`" % name)
+    verifier_gate(R, "C01-R1", vs)
 
     # ---------------------------------------------------------------- R2 argument positions
     R.rule("C01-R2", "request body, response body, key id and nonce reach the verifier, the digest and the key lookup in their own positions; the key map holds latest and historical keys")
@@ -154,7 +182,8 @@ def run(F, R):
         exp = sorted(["Sha256::digest(metadata.request_body)", None]) if False else None
         ok_a = "Sha256::digest(metadata.request_body)" in (ra, rb)
         other = rb if ra == "Sha256::digest(metadata.request_body)" else ra
-        ok_b = other.startswith("decode(") and other.endswith("@Continue.0") and ".1)" in other
+        # the Ok payload of hex::decode(<hash half of the ETag>), whether taken with `?` or with a match
+        ok_b = other.startswith("decode(") and (other.endswith("@Continue.0") or other.endswith("@Ok.0")) and ".1)" in other
         R.check("C01-R4", "operands", ok_a and ok_b and not sl, "%s  vs  %s" % (ra[:60], rb[:80]), "hash comparison is %s vs %s (slicing: %s)" % (ra[:100], rb[:100], [x[0] if x[0] != "call" else x[1] for x in sl]), lib.loc(vr, bi))
         tys = [c.types[x]["s"] for x in t.get("substs", []) if isinstance(x, int)]
         R.check("C01-R4", "operand-types", all(("[u8]" in x or "GenericArray" in x or "Vec<u8>" in x) for x in tys), str(tys)[:120], "comparison operand types: %s" % tys)
@@ -166,7 +195,7 @@ def run(F, R):
             ret = [x for x in walk(vr.trace_local(0)) if x[0] == "agg" and x[2] and x[2].endswith("Result::Ok")]
         if ret:
             s_ = terms.render(vr, ret[0][3][0], W, names_vr, transparent=NOERR)
-            R.check("C01-R5", "returned-signature", s_.startswith("from_bytes(decode(") and s_.endswith("@Continue.0") and ".0)" in s_, s_[:120], "Ok carries %s" % s_[:160])
+            R.check("C01-R5", "returned-signature", s_.startswith("from_bytes(decode(") and (s_.endswith("@Continue.0") or s_.endswith("@Ok.0")) and ".0)" in s_, s_[:120], "Ok carries %s" % s_[:160])
             same = False
             if call:
                 pass
